@@ -92,8 +92,6 @@ AllValues ==
 Kinds == {"stream", "measure", "trace", "property", "topn"}
 TimeLitA == StrL("2026-01-01T00:00:00Z")
 TimeLitB == StrL("2026-06-01T00:00:00Z")
-TagLit(tag) == IF tag = "s" THEN StrL("lit") ELSE IntL("3")
-Leaf(lit) == {PH, lit}
 
 \* every clause comes absent, literal, or with placeholders in each of its value positions; the
 \* literal-only variants are kept few so that the product stays enumerable
@@ -103,11 +101,17 @@ TimeForms ==
     [op |-> "between", args |-> <<PH, PH>>], [op |-> "between", args |-> <<TimeLitA, PH>>],
     [op |-> "between", args |-> <<PH, TimeLitB>>] }
 
-Cond(tag, op, args) == [tag |-> tag, op |-> op, args |-> args]
-CondsS == { Cond("s", "=", <<StrL("lit")>>), Cond("s", "=", <<PH>>), Cond("s", "!=", <<PH>>),
-            Cond("s", "IN", <<PH>>), Cond("s", "IN", <<StrL("lit"), PH>>), Cond("s", "IN", <<PH, PH>>) }
-CondsI == { Cond("i", ">", <<IntL("3")>>), Cond("i", ">", <<PH>>), Cond("i", "=", <<PH>>),
-            Cond("i", "IN", <<PH, IntL("3")>>), Cond("i", "IN", <<PH, PH>>) }
+\* a condition = [tag, op, form, args]; form "one": a single value (tag = v, tag MATCH(v), tag HAVING v),
+\* form "many": a parenthesised value list (tag IN (..), tag MATCH((..)), tag HAVING (..))
+Cond(tag, op, form, args) == [tag |-> tag, op |-> op, form |-> form, args |-> args]
+CondsS == { Cond("s", "=", "one", <<StrL("lit")>>), Cond("s", "=", "one", <<PH>>), Cond("s", "!=", "one", <<PH>>),
+            Cond("s", "IN", "many", <<PH>>), Cond("s", "IN", "many", <<StrL("lit"), PH>>), Cond("s", "IN", "many", <<PH, PH>>),
+            Cond("s", "MATCH", "one", <<PH>>), Cond("s", "MATCH", "many", <<PH, StrL("lit")>>),
+            Cond("s", "HAVING", "one", <<PH>>), Cond("s", "HAVING", "many", <<PH>>) }
+CondsI == { Cond("i", ">", "one", <<IntL("3")>>), Cond("i", ">", "one", <<PH>>), Cond("i", "=", "one", <<PH>>),
+            Cond("i", "IN", "many", <<PH, IntL("3")>>), Cond("i", "IN", "many", <<PH, PH>>),
+            Cond("i", "HAVING", "one", <<PH>>), Cond("i", "HAVING", "many", <<PH, IntL("3")>>) }
+CompareOps == {"=", "!=", ">"}
 
 Wheres(joins) ==
        { [conds |-> <<>>, join |-> "AND"] }
@@ -117,7 +121,6 @@ Wheres(joins) ==
 LimOffs == { [l |-> None, f |-> None], [l |-> IntL("7"), f |-> None], [l |-> PH, f |-> None],
              [l |-> PH, f |-> PH], [l |-> IntL("7"), f |-> PH], [l |-> PH, f |-> IntL("3")] }
 Tops == {None, IntL("3"), PH}
-NoTime == {[op |-> "none", args |-> <<>>]}
 
 \* a statement = [kind, top, time, w = [conds, join], order, lo = [l, f]]
 WellFormed(s) ==
@@ -140,19 +143,22 @@ Norm(r) ==
 
 -----------------------------------------------------------------------------
 \* ---- placeholders in textual order (binder.collect, preparer.walkGrammar) ----
-\* a slot = [k |-> kind of position, tag |-> the tag it is compared with ("-" when none)]
-PhSlot(leaf, k, tag) == IF leaf = PH THEN << [k |-> k, tag |-> tag] >> ELSE <<>>
+\* a slot = [k |-> kind of position, tag / op / form |-> the condition it belongs to ("-" when none)]
+Slot(k, tag, op, form) == [k |-> k, tag |-> tag, op |-> op, form |-> form]
+PhSlot(leaf, sl) == IF leaf = PH THEN <<sl>> ELSE <<>>
 
-RECURSIVE ArgSlots(_, _, _)
-ArgSlots(args, k, tag) == IF args = <<>> THEN <<>> ELSE PhSlot(Head(args), k, tag) \o ArgSlots(Tail(args), k, tag)
+RECURSIVE ArgSlots(_, _)
+ArgSlots(args, sl) == IF args = <<>> THEN <<>> ELSE PhSlot(Head(args), sl) \o ArgSlots(Tail(args), sl)
 
-CondSlots(c) == ArgSlots(c.args, IF c.op = "IN" THEN "list" ELSE "scalar", c.tag)
+\* comparison values are scalar positions; IN / MATCH / HAVING values (single or listed) are list elements
+CondSlots(c) == ArgSlots(c.args, Slot(IF c.op \in CompareOps THEN "scalar" ELSE "list", c.tag, c.op, c.form))
 
 RECURSIVE WhereSlots(_)
 WhereSlots(w) == IF w = <<>> THEN <<>> ELSE CondSlots(Head(w)) \o WhereSlots(Tail(w))
 
-Slots(s) ==    PhSlot(s.top, "count32", "-") \o ArgSlots(s.time.args, "time", "-") \o WhereSlots(s.w.conds)
-            \o PhSlot(s.lo.l, "countu32", "-") \o PhSlot(s.lo.f, "countu32", "-")
+TimeSlots(s) == ArgSlots(s.time.args, Slot("time", "-", "-", "-"))
+Slots(s) ==    PhSlot(s.top, Slot("count32", "-", "-", "-")) \o TimeSlots(s) \o WhereSlots(s.w.conds)
+            \o PhSlot(s.lo.l, Slot("countu32", "-", "-", "-")) \o PhSlot(s.lo.f, Slot("countu32", "-", "-", "-"))
 
 NumSlots(s) == Len(Slots(s))
 
@@ -191,7 +197,11 @@ SubstArgs(args, rs, i) ==
 RECURSIVE SubstWhere(_, _, _)
 SubstWhere(w, rs, i) ==
   IF w = <<>> THEN <<>>
-  ELSE << [Head(w) EXCEPT !.args = SubstArgs(Head(w).args, rs, i)] >> \o SubstWhere(Tail(w), rs, i + Len(CondSlots(Head(w))))
+  ELSE LET c == Head(w)
+           a == SubstArgs(c.args, rs, i)
+       IN  \* a single-value container stays single unless an array expanded it to several values
+           << [c EXCEPT !.args = a, !.form = IF c.form = "one" /\ Len(a) # 1 THEN "many" ELSE c.form] >>
+           \o SubstWhere(Tail(w), rs, i + Len(CondSlots(c)))
 
 One(leaf, rs, i) == IF leaf = PH THEN rs[i][1] ELSE leaf
 Inc(leaf) == IF leaf = PH THEN 1 ELSE 0
@@ -199,7 +209,7 @@ Inc(leaf) == IF leaf = PH THEN 1 ELSE 0
 \* rs[i] = the leaves placeholder i resolves to
 Subst(s, rs) ==
   LET i1 == 1 + Inc(s.top)
-      i2 == i1 + Len(ArgSlots(s.time.args, "time", "-"))
+      i2 == i1 + Len(TimeSlots(s))
       i3 == i2 + Len(WhereSlots(s.w.conds))
       i4 == i3 + Inc(s.lo.l)
   IN [s EXCEPT !.top = One(s.top, rs, 1),
@@ -220,7 +230,11 @@ Literalise(s, p) == Bind(s, p).lit      \* defined when Bind(s, p).ok
 CountOK(leaf, u32) == leaf = None \/ (leaf.t = "int" /\ IF u32 THEN FitsU32(leaf.v) ELSE FitsI32(leaf.v))
 TimeOK(leaf) == leaf.t = "str" /\ leaf.v \in TimeTexts
 ValOK(tag, leaf) == leaf.t \in {"int", "null"} \/ (leaf.t = "str" /\ (tag = "s" \/ leaf.v \in IntTexts))
-CondOK(c) == \A j \in 1..Len(c.args) : ValOK(c.tag, c.args[j]) /\ (c.op = "IN" => c.args[j] # Null)
+CondOK(c) ==
+  CASE c.op \in CompareOps -> ValOK(c.tag, c.args[1])
+    [] c.op = "MATCH" -> \A j \in 1..Len(c.args) : c.args[j] # Null                  \* any value, taken as text
+    [] c.op = "HAVING" /\ c.form = "one" -> ValOK(c.tag, c.args[1])
+    [] OTHER -> \A j \in 1..Len(c.args) : ValOK(c.tag, c.args[j]) /\ c.args[j] # Null   \* IN, HAVING (..)
 LitCheck(l) ==
   /\ CountOK(l.top, FALSE) /\ CountOK(l.lo.l, TRUE) /\ CountOK(l.lo.f, TRUE)
   /\ \A j \in 1..Len(l.time.args) : TimeOK(l.time.args[j])
@@ -326,7 +340,9 @@ Accept(slot, p) ==
     [] slot.k = "countu32" -> p.t = "int" /\ FitsU32(p.v)
     [] slot.k = "time"     -> (p.t = "str" /\ p.v \in TimeTexts) \/ (p.t = "ts" /\ p.v \in ValidTs)
     [] slot.k = "scalar"   -> p.t \in {"int", "null"} \/ (p.t = "str" /\ (slot.tag = "s" \/ p.v \in IntTexts))
+    [] slot.k = "list" /\ slot.op = "MATCH" -> p.t \in {"str", "int"} \/ (p.t \in {"strs", "ints"} /\ p.vs # <<>>)
     [] slot.k = "list"     -> \/ p.t = "int"
+                              \/ p.t = "null" /\ slot.op = "HAVING" /\ slot.form = "one"
                               \/ p.t = "str" /\ (slot.tag = "s" \/ p.v \in IntTexts)
                               \/ p.t = "ints" /\ p.vs # <<>>
                               \/ p.t = "strs" /\ p.vs # <<>> /\ (slot.tag = "s" \/ \A j \in 1..Len(p.vs) : p.vs[j] \in IntTexts)
